@@ -213,6 +213,10 @@ def list_exprs(c):
         out.append((("Sym", "e"), ("List", [V(c.ints[0]), I(1)]), 2, ("e",)))
     out.append((("Sym", "e"), ("List", []), 3, ("e",)))
     out.append((("Destructure", ["j", "k"]), ("List", [("Tuple", [I(1), I(2)]), ("Tuple", [I(3), I(4)])]), 3, ("j", "k")))
+    # `_` in a destructuring pattern binds nothing but still stands for its item: before and after a named variable
+    out.append((("Destructure", ["_", "k"]), ("List", [("Tuple", [I(1), I(2)]), ("Tuple", [I(3), I(4)])]), 3, ("k",)))
+    out.append((("Destructure", ["j", "_"]), ("List", [("Tuple", [I(1), I(2)]), ("Tuple", [I(3), I(4)])]), 3, ("j",)))
+    out.append((("Destructure", ["_", "k", "_"]), ("List", [("Tuple", [I(1), I(2), I(3)])]), 3, ("k",)))
     return out
 
 
@@ -370,6 +374,7 @@ class Gen:
                 add(("Let", ("Sym", name), None, e), 1 + cn + ce, declare_int(c, name))
         if "x" not in c.frozen and "y" not in c.frozen:
             add(("Let", ("Destructure", ["x", "y"]), None, ("Tuple", [a0, a1])), 3, declare_int(declare_int(c, "x"), "y"))
+            add(("Let", ("Destructure", ["_", "y"]), None, ("Tuple", [a0, a1])), 3, declare_int(c, "y"))
         for e, ce in noisy_bool_exprs():       # a Bool variable, only ever printed by the epilogue
             add(("Let", ("Sym", "c"), None, e), 1 + ce, declare_other(c, bv=True))
         if "s" not in c.frozen:
